@@ -754,7 +754,9 @@ struct StreamWorld : World {
                 ascon_state_t *cp = (ascon_state_t *)cb.p;
                 uint8_t a[40], b2[40];
                 ascon_init(cp);
+                ascon_release(st); // documented protocol: destination acquired, source released
                 ascon_copy(cp, st);
+                ascon_acquire(st);
                 ascon_extract_bytes(st, a, 0, 40);
                 ascon_extract_bytes(cp, b2, 0, 40);
                 ascon_free(cp);
